@@ -76,7 +76,10 @@ package llm
 
 // "A model is declared to fit completely only if all of its layers were placed":
 // the two `return true` statements (return #1: no user limit, return #2: num_gpu set).
+//@ extern func discover.(GpuInfoList).ByLibrary
+//@   modifies nothing
 //@ func PredictServerFit
 //@   requires len(projectors) <= 1024
+//@   modifies nothing
 //@   assert-at return #1 : opts.NumGPU < 0 && estimate.Layers >= f.KV().BlockCount() + 1
 //@   assert-at return #2 : opts.NumGPU >= 0 && estimate.Layers >= opts.NumGPU && estimate.Layers > 0
